@@ -36,7 +36,7 @@ RULE = (
 ASSUMPTIONS = ["CPython threads; the counter attribute is the only shared mutable state touched by name generation"]
 
 A = VTag("a", True, 1)
-PREFIXES = ("leaf", "materialization", "x", "leaf_0001")
+PREFIXES = ("leaf", "materialization", "x", "leaf_0001", "p" * 60, "dataset_query_" + "q" * 56)
 
 
 def budget(tier):
@@ -52,7 +52,9 @@ def st_case(draw, tier):
     for _ in range(nthreads):
         reqs = draw(
             st.lists(
-                st.tuples(st.integers(0, nengines - 1), st.sampled_from(["name", "name", "leaf", "mat"]), st.sampled_from(PREFIXES)),
+                st.tuples(
+                    st.integers(0, nengines - 1), st.sampled_from(["name", "name", "name", "leaf", "mat", "reseed"]), st.sampled_from(PREFIXES)
+                ),
                 min_size=1,
                 max_size=4,
             )
@@ -161,6 +163,12 @@ def request(engine, kind, what, prefix):
 
     from vf.core.prog import lib_nodes
 
+    if what == "reseed":
+        # application code is free to (re)seed the process-wide random module at any time
+        import random
+
+        random.seed(len(prefix))
+        return None
     if what == "name":
         return engine.get_relation_name(prefix)
     if kind == "it":
@@ -210,6 +218,8 @@ def run_case(case, stats):
         def fn():
             for ei, what, prefix in reqs:
                 name = request(engs[ei], engines_spec[ei], what, prefix)
+                if name is None:
+                    continue
                 with lock:
                     names.append((tid, prefix, name))
 
@@ -230,6 +240,8 @@ def run_case(case, stats):
                 for _ in range(3):
                     for ei, what, prefix in reqs:
                         name = request(engines1[ei], engines_spec[ei], what, prefix)
+                        if name is None:
+                            continue
                         with lock:
                             names1.append((tid, prefix, name))
             except BaseException as e:  # noqa
